@@ -626,5 +626,6 @@ pub fn run(ctx: &Ctx) -> Report {
         crate::pool::machinery_failure("more than 5% of generated programs were rejected by the compiler: the generator explores nothing");
     }
     report.violations = stats.violations;
+    crate::c12::run_cyclic_family(ctx, &mut report);
     report
 }
